@@ -343,14 +343,17 @@ WORDS = {0: "--resume-layer", 1: "--default", 2: "-t", 3: "foo", 4: "--shuffle",
 
 
 def _word(c):
-    return str(c - 1000) if c >= 1000 else WORDS[c]
+    return str(c - 1000) if c >= 1000 else WORDS.get(c, "<word %d>" % c)
 
 
 def _code(w):
     for c, x in WORDS.items():
         if x == w:
             return c
-    return 1000 + int(w)
+    try:
+        return 1000 + int(w)
+    except ValueError:
+        return 999          # a word the composer made up (not of the alphabet): the model will disagree
 
 
 class _Captured(Exception):
